@@ -91,8 +91,26 @@ pub fn run_pair(case: u64, rng: &mut Rng, ev: &mut Ev, prefix: &str, partial_bia
         make_divisor_safe(&mut sb, rng);
     }
     let scr = rng.chance(0.4);
-    let a = gen::build::<2>(&sa, rng, scr);
-    let b = gen::build::<2>(&sb, rng, false);
+    let mut a = gen::build::<2>(&sa, rng, scr);
+    let mut b = gen::build::<2>(&sb, rng, false);
+    // operands with a history: cached witnesses / verdicts and index holes from an earlier elimination
+    let pre_a = rng.chance(0.3);
+    let pre_b = rng.chance(0.2);
+    if pre_a || pre_b {
+        let r = lib(case, "history: infeasible_elimination of an operand", || {
+            if pre_a {
+                a.infeasible_elimination();
+            }
+            if pre_b {
+                b.infeasible_elimination();
+            }
+        });
+        if r.is_err() {
+            ev.skip("elimination panicked while preparing an operand (C04's subject)");
+            return;
+        }
+        ev.inc("cases_with_pre_eliminated_operand");
+    }
     let asn = snap(&a);
     let bsn = snap(&b);
     ev.evaluations += 1;
